@@ -129,6 +129,7 @@ def gen_index(tier, seed):
         case = Case(r, order, lines)
         for combo in combos:
             stats["combos"] += 1
+            case.h, case.dh = 30, 200        # handles are reused from one combination to the next
             kv, region = [], []
             for l, kind in zip(order, combo):
                 stats["kinds"][kind] = stats["kinds"].get(kind, 0) + 1
